@@ -127,6 +127,62 @@ def gen_doc(rng, malformed=False):
     return "".join(parts), toks
 
 
+# ------------------------------------------------------------------------------------------------
+# structured strings: arbitrary tag bodies, runs of backslashes, failing closes far from the start
+# ------------------------------------------------------------------------------------------------
+BODY_ALPHA = ["a", "b", "z", "#", "/", "[", "]", "\\", "=", " ", "\n", "A", "1", ":", "x", "\t", "é", "\r"]
+BODY_HEAD = ["a", "b", "z", "#", "/", "/", "A", "1", "[", " ", "=", "`", "{"]
+
+
+def gen_body(rng, maxlen=12):
+    n = rng.randint(0, maxlen)
+    if n == 0:
+        return ""
+    return rng.choice(BODY_HEAD) + "".join(rng.choice(BODY_ALPHA) for _ in range(n - 1))
+
+
+def gen_body_doc(rng):
+    """two or more bracketed bodies over the full alphabet of the tag class and its neighbours (line
+    feeds, brackets, backslashes, `=`, blanks inside the body), with 0..7 backslashes in front,
+    between plain text, closes of earlier names, `[/]` and escaped leaves"""
+    from rich.markup import escape
+
+    parts = []
+    names = []
+    for _ in range(rng.randint(2, 7)):
+        r = rng.random()
+        if r < 0.5:
+            body = gen_body(rng)
+            parts.append("\\" * rng.choice([0, 0, 0, 0, 1, 2, 3, 4, 5, 6, 7]) + "[" + body + "]")
+            nm = body.partition("=")[0]
+            if nm and "]" not in nm and "\n" not in nm:
+                names.append(nm)
+        elif r < 0.65 and names:
+            parts.append("\\" * rng.choice([0, 0, 0, 2, 4]) + "[/" + rng.choice(names) + rng.choice(["", " ", "=p"]) + "]")
+        elif r < 0.72:
+            parts.append("[/]")
+        elif r < 0.80:
+            parts.append("".join(rng.choice(BODY_ALPHA) for _ in range(rng.randint(0, 5))))
+        elif r < 0.88:
+            # halves of emoji codes on both sides of a tag: replaced only when they fall in one chunk
+            parts.append(rng.choice([":", "a:", ":a", ":a:", ":smile:", ":smile", "smile:", "b:", ":A:", ":b"]))
+        else:
+            parts.append(escape(gen_leaf(rng)))
+    return "".join(parts)
+
+
+def gen_far_error(rng):
+    """a closing tag with nothing to close behind k >= 2 backslashes, after some well-formed prefix:
+    the reported position must skip the literal backslashes (`start += backslashes * 2`)"""
+    from rich.markup import escape
+
+    pre = "".join(rng.choice(["x", "[b]", "[/]" if False else "y ", "[a=1]", escape(gen_leaf(rng, 4)), "\\\\[i]", "\\[u]", "\n"]) for _ in range(rng.randint(0, 5)))
+    k = rng.choice([2, 3, 4, 5, 6, 7, 8, 9])
+    tag = rng.choice(["[/q]", "[/ q ]", "[/q=1]", "[/Q]"])
+    post = rng.choice(["", "z", "[b]"])
+    return pre + "\\" * k + tag + post
+
+
 def expect_doc(toks):
     """token-level meaning of a document: ('ok', plain, ann, spans) | ('err', kind, position, tagmarkup)"""
     from rich.markup import escape
@@ -200,6 +256,19 @@ def merge(ctx, res):
     return 0
 
 
+def merge_out(ctx, out):
+    """fold an in-process lib_markup.Out into the Ctx"""
+    res = {"notes": out.notes, "nprop": out.nprop, "fails": [], "failcount": {}, "cases": out.cases}
+    best = {}
+    for f in out.fails:
+        k = (f[0], f[3])
+        res["failcount"][k] = res["failcount"].get(k, 0) + 1
+        if k not in best or len(repr(f[1])) < len(repr(best[k][1])):
+            best[k] = f
+    res["fails"] = list(best.values())
+    merge(ctx, res)
+
+
 def run(ctx):
     import rich.markup as markup
     from rich.console import Console
@@ -209,6 +278,7 @@ def run(ctx):
 
     rng = ctx.rng
     L.install_recorder()
+    L.CLASSIFY_F8 = bool(SORT_SPANS)
     ctx.assumptions += [
         "Style.normalize is a parameter of the model: the pairs the real render() used are recorded per call and replayed by the model (a name the real code never normalized answers a NUL-marked string, i.e. a mismatch); "
         "its contract (equal styles -> equal strings, non-styles -> strip().lower()) is checked by the oracle on a fixed tag vocabulary",
@@ -256,7 +326,7 @@ def run(ctx):
 
     # ---- 2. longer random strings: the alphabet plus classes the code branches on elsewhere
     extra = L.ALPHA + ["[", "]", "\\", "[", "]", "z", "A", "\r", "\x0b", "\t", "é", "あ", ":", "a", "b", "/", " ", "x"]
-    n_rand = 6000 if ctx.quick else 60000
+    n_rand = 6000 if ctx.quick else 30000
     out = L.Out()
     for _ in range(n_rand):
         s = "".join(rng.choice(extra) for _ in range(rng.randint(6, 24)))
@@ -276,7 +346,7 @@ def run(ctx):
     # ---- 3. documents from the tag grammar (nested and overlapping tags, escaped leaves)
     console = Console(width=80, color_system="truecolor", force_terminal=True, legacy_windows=False)
     null = Style.null()
-    n_docs = 7000 if ctx.quick else 60000
+    n_docs = 7000 if ctx.quick else 40000
     for i in range(n_docs):
         malformed = rng.random() < 0.2
         mk, toks = gen_doc(rng, malformed)
@@ -306,7 +376,7 @@ def run(ctx):
         got = L.spans_of(res)
         okc = L.cover(got, len(plain)) == ann and len(got) == len(want_spans)
         is_f8 = (not okc) and res.plain == plain and L.f8_shape(got, want_spans)
-        ctx.check(okc, "doc:tags_style_exactly", mk, f"spans {got!r}; expected (opening order, later wins) {want_spans!r}", finding=L.F8_SLUG if is_f8 else None)
+        ctx.check(okc, "doc:tags_style_exactly", mk, f"spans {got!r}; expected (opening order, later wins) {want_spans!r}", finding=L.F8_SLUG if (is_f8 and L.CLASSIFY_F8) else None)
         # the same statement observed through real Text.render: the Style each character is drawn with
         if res.plain == plain:
             try:
@@ -317,7 +387,7 @@ def run(ctx):
             want = [Style.combine([console.get_style(st, default=null) for st in a]) if a else null for a in ann]
             ok = len(real) == len(want) and all(r == w for r, w in zip(real, want))
             ctx.check(ok, "doc:Text.render-effective-style", mk, "the style a character is drawn with is not the combination of the tags open there, later-opened winning",
-                      finding=L.F8_SLUG if ((not ok) and L.f8_shape(got, want_spans)) else None)
+                      finding=L.F8_SLUG if (L.CLASSIFY_F8 and (not ok) and L.f8_shape(got, want_spans)) else None)
             # and Text.render itself means "covering spans in list order, later wins"
             fold = [Style.combine([console.get_style(st, default=null) for st in c]) if c else null for c in L.cover(got, len(plain))]
             ctx.check(len(real) == len(fold) and all(r == w for r, w in zip(real, fold)), "Text.render-vs-span-fold", mk, "Text.render disagrees with the fold of the covering spans in list order")
@@ -336,12 +406,59 @@ def run(ctx):
         ctx.check(d1.plain == dt.plain and d2.plain == dt.plain, "from_markup:glue", mk, "the default of `emoji` is not True")
     ctx.flush()
 
+
+    # ---- 5. glue: Console.render_str / Console.print of strings decide whether markup and emoji are interpreted
+    combos = [(ce, cm, e, m) for ce in (True, False) for cm in (True, False) for e in (None, True, False) for m in (None, True, False)]
+    out = L.Out()
+    glue_strings = list(L.shard_strings("", 3))
+    if not ctx.quick:
+        glue_strings += [s for s in L.shard_strings("", 4) if len(s) == 4 and L.interesting(s)]
+    for s in glue_strings:
+        for ce, cm, e, m in combos if len(s) <= 2 else rng.sample(combos, 6):
+            L.check_glue(out, [s], " ", ce, cm, e, m, full=len(s) <= 2 or rng.random() < 0.3)
+    n_glue = 2500 if ctx.quick else 12000
+    seps = [" ", "", ", ", "\n", ":", "[", "\r"]
+    for i in range(n_glue):
+        k = rng.choice([1, 1, 2, 3])
+        strs = []
+        for _ in range(k):
+            r = rng.random()
+            if r < 0.4:
+                strs.append(gen_doc(rng, rng.random() < 0.15)[0])
+            elif r < 0.6:
+                strs.append(gen_body_doc(rng))
+            elif r < 0.8:
+                strs.append("".join(rng.choice(extra) for _ in range(rng.randint(0, 10))))
+            else:
+                strs.append(markup.escape(gen_leaf(rng)))
+        ce, cm, e, m = rng.choice(combos)
+        L.check_glue(out, strs, rng.choice(seps), ce, cm, e, m)
+        ctx.note("glue:n%d" % k)
+    merge_out(ctx, out)
+    ctx.flush()
+
+    # ---- 6. structured strings: arbitrary tag bodies up to 12 characters, backslash runs, far error positions
+    out = L.Out()
+    n_body = 4000 if ctx.quick else 30000
+    for _ in range(n_body):
+        s = gen_body_doc(rng)
+        L.check_string(out, s, SORT_SPANS, level=2)
+        ctx.note("bodydoc:len%d" % min(len(s) // 10 * 10, 60))
+    for _ in range(n_body // 3):
+        s = gen_far_error(rng)
+        L.check_string(out, s, SORT_SPANS, level=1)
+        ctx.note("farerror")
+    merge_out(ctx, out)
+    ctx.flush()
+
     ctx.extra_cov["distinct_nontrivial"] = len(ctx.distinct) + sharded_distinct
     ctx.rule = (
         "every string of length <= %d over the 12 symbols %r and every string of length <= %d over the 16 boundary symbols %r (%d strings in all; each gives one request per modelled function: "
         "escape, _parse, render(emoji=False), render(escape(s)), Text.from_markup(emoji=True); beyond length %d only strings in "
         "which RE_TAGS can match go to the model, all go through the direct evaluation) + %d seeded random strings of length 6..24 "
-        "+ %d seeded tag-grammar documents (nested/overlapping/implicit closes, 15 tag names x spellings x parameters, escaped leaves, 20%% malformed); "
+        "+ %d seeded tag-grammar documents (nested/overlapping/implicit closes, 15 tag names x spellings x parameters, escaped leaves, 20%% malformed) "
+        "+ structured strings (2-7 bracketed bodies of length <= 12 over the tag class, its neighbours, line feed, brackets, backslash, '=', blanks; "
+        "0-7 backslashes in front; failing closes behind 2-9 backslashes) + Console.render_str / Console.print on all strings <= 3 x 36 flag combinations and seeded lists of 1-3 strings; "
         "distinct = distinct canonical request lines (exhaustive shards enumerate distinct strings by construction)"
         % (maxlen, L.ALPHA, maxlen2, L.ALPHA2, nstr, full_upto, n_rand, n_docs)
     )
@@ -364,25 +481,30 @@ def replay(ctx, case):
 
 
 MANIFEST = {
-    "text": "Lean 4 theorems (Props/C04.lean; no bound on string length, number of tags or nesting; `Style.normalize` an arbitrary "
-    "function): scan_partition and scan_bump for the hand-written scanner of RE_TAGS (escape turns k backslashes into 2k+1 and the "
-    "scanner then sees exactly the bumped items); render_escape for EVERY string and both span orders: render(escape(s), emoji=False) "
-    "= (s minus the four control codes Text strips, no spans), never raising; scan_append / escape_embedded_events under the "
-    "statement's side condition (selfContained_iff states it in the statement's words); a refinement proof that the render loop "
-    "(offset stack + span slots) computes a three-line reference semantics (characters annotated with the tags open there, in opening "
-    "order): tags_style_exactly_partial for every markup string, tags_style_exactly_doc_partial for documents of the tag grammar, "
-    "render_escape_embedded_partial, error_iff_nothing_to_close_partial (both span orders). The `_partial` theorems assume emoji=False "
-    "(with emoji on, text chunks pass through _emoji_replace one by one: not proved) and, for the style theorems, the repaired span "
-    "order (what /repo contains now); old_tags_style_exactly* prove by `decide` that the `sorted(spans)` of rich 9.10.0 as found violated the "
-    "precedence at `[b][a]x` (finding F8, repaired by fix 623ba68 = pending_fixes/C04-markup-span-order.diff). Tie: ~1.4M model-vs-rich comparisons per quick run (every string <= 5 over the 12-symbol "
-    "alphabet and <= 4 over 16 class-boundary symbols through escape, _parse, render, Text.from_markup with emoji on, plus random "
-    "strings and 7000 tag-grammar documents), and the theorems' executable statements evaluated on rich's own output against an "
-    "independent reference interpreter, and on real Text.render for the documents.",
+    "text": "Lean 4 theorems (Props/C04.lean; no bound on string length, number of tags or nesting; `Style.normalize`, the emoji "
+    "table and the white-space class arbitrary): scan_partition and scan_bump for the hand-written scanner of RE_TAGS (escape turns k "
+    "backslashes into 2k+1 and the scanner then sees exactly the bumped items); a refinement proof that the render loop (offset stack "
+    "+ span slots) computes a reference semantics over the chunks `_parse` yields, each chunk going through _emoji_replace and "
+    "strip_control_codes on its own: tags_style_exactly for EVERY markup string with emoji on or off (fails exactly when a closing tag "
+    "has nothing to close, else at every character of the replaced text the covering spans in list order are the tags open there in "
+    "opening order), tags_style_exactly_doc for documents of the tag grammar, render_escape_embedded under the statement's side "
+    "condition (selfContained_iff states it in the statement's words), error_iff_nothing_to_close for any emoji setting and either "
+    "span order; render_escape for EVERY string: with emoji off, or with emoji on when the string has no `:name:` of the table, "
+    "render(escape(s)) = (s minus the four control codes Text strips, no spans), never raising; render_escape_emoji_exact gives the "
+    "result for every string and table, render_escape_emoji_witness shows `:a:` is not protected by escape(). Glue: render_str with "
+    "markup disabled never interprets the text (render_str_markup_off), with markup enabled it is markup.render with the emoji flag "
+    "resolved `arg or (arg is None and default)` (render_str_markup_on, triFlag_spec), print_escape through Console.print. "
+    "old_tags_style_exactly* keep the `decide` witnesses that rich 9.10.0's `sorted(spans)` broke the precedence (F8, fixed by 623ba68). "
+    "Tie: ~1.5M model-vs-rich comparisons per quick run (every string <= 5 over the 12-symbol alphabet and <= 4 over 16 class-boundary "
+    "symbols through escape, _parse, render, Text.from_markup with emoji on; random strings; 7000 tag-grammar documents; 5000 structured "
+    "strings with arbitrary tag bodies up to 12 characters, backslash runs up to 7 and failing closes behind up to 9 backslashes; "
+    "Console.render_str / Console.print over all 36 flag combinations), and the theorems' executable statements evaluated on rich's own "
+    "output against an independent reference interpreter, on real Text.render for the documents, and on the characters Console.print writes.",
     "note": "Trusted: Lean kernel; axioms propext/Classical.choice/Quot.sound; the correspondence harness; regex leftmost/greedy/lazy "
     "semantics for three patterns is modelled by hand scanners and tied only by the (exhaustive-to-length-5/7) correspondence. "
     "Parameters, not verified: Style.normalize (recorded from the real call and replayed by the model; its contract is checked by the "
     "oracle on a 15-name vocabulary), the EMOJI table (data handed to the model per request), str.isspace (compared on code points). "
-    "Text._length of the early-exit path is not observed (F1 belongs to C05). The emoji=True path is covered by correspondence and "
-    "direct evaluation, not by a theorem.",
+    "Console glue is modelled with highlighting off, no console-level style and justify=None; style/justify/overflow pass-through is "
+    "checked directly, not modelled. Since the F8 repair no failure is ever classified as a known finding.",
     "design_ref": "DESIGN.md section 7, C04; section 8, F8",
 }
